@@ -4,7 +4,8 @@ import RpgpProofs.S2k
 # Proofs about `RpgpModel/SymEnc.lean` (helper lemmas for `RpgpProps/C12.lean`)
 -/
 set_option linter.unusedSimpArgs false
-namespace Rpgp
+namespace Rpgp.Sym
+open Rpgp
 open Seipd2
 
 theorem beNat_append (a b : Bytes) : beNat (a ++ b) = beNat a * 256 ^ b.length + beNat b := by
@@ -428,12 +429,20 @@ theorem Skesk.plan6_eval (P : Prims) (sym aead : Nat) (s : S2k.Spec) (pw sk iv :
   cases hE : Skesk.encryptAllowed s <;> cases hp : S2k.plan s pw (Gen.c12SymKeySize sym) <;>
     simp [hE, hp, PExpr.eval, bind, Option.bind, pure]
 
-theorem SecKey.cfbPlan_eval (P : Prims) (sym : Nat) (s : S2k.Spec) (pw iv raw : Bytes) :
-    (SecKey.cfbPlan true sym s pw iv raw).map (PExpr.eval P) = SecKey.cfbData P sym s pw iv raw := by
+theorem SecKey.cfbLockAllowed_not_argon2 (ver : Nat) (s : S2k.Spec) (h : SecKey.cfbLockAllowed ver s = true) :
+    s.isArgon2 = false := by
+  unfold SecKey.cfbLockAllowed at h
+  cases hA : s.isArgon2 <;> simp [hA] at h ⊢
+
+theorem SecKey.cfbPlan_eval (P : Prims) (ver sym : Nat) (s : S2k.Spec) (pw iv raw : Bytes) :
+    (SecKey.cfbPlan true ver sym s pw iv raw).map (PExpr.eval P) = SecKey.cfbData P ver sym s pw iv raw := by
   unfold SecKey.cfbPlan SecKey.cfbData
   rw [← plan_eval P s pw (Gen.c12SymKeySize sym)]
-  cases hW : s.weakHash <;> cases hA : s.isArgon2 <;> cases hp : S2k.plan s pw (Gen.c12SymKeySize sym) <;>
-    simp [hW, hA, hp, PExpr.eval, bind, Option.bind, pure]
+  cases hL : SecKey.cfbLockAllowed ver s
+  · simp [hL]
+  · have hA := SecKey.cfbLockAllowed_not_argon2 ver s hL
+    cases hp : S2k.plan s pw (Gen.c12SymKeySize sym) <;>
+      simp [hL, hA, hp, PExpr.eval, bind, Option.bind, pure]
 
 theorem SecKey.aeadPlan_eval (P : Prims) (sym aead : Nat) (s : S2k.Spec) (pw nonce : Bytes) (tag ver : Nat)
     (pubBody raw : Bytes) :
@@ -441,7 +450,7 @@ theorem SecKey.aeadPlan_eval (P : Prims) (sym aead : Nat) (s : S2k.Spec) (pw non
       SecKey.aeadData P sym aead s pw nonce tag ver pubBody raw := by
   unfold SecKey.aeadPlan SecKey.aeadData
   rw [← plan_eval P s pw (Gen.c12SymKeySize sym)]
-  cases hW : s.weakHash <;> cases hp : S2k.plan s pw (Gen.c12SymKeySize sym) <;>
+  cases hW : SecKey.aeadLockAllowed s <;> cases hp : S2k.plan s pw (Gen.c12SymKeySize sym) <;>
     simp [hW, hp, PExpr.eval, bind, Option.bind, pure]
 
-end Rpgp
+end Rpgp.Sym
